@@ -59,7 +59,7 @@ def vok(d, kind, v):
     if kind in SPECIAL:
         return 0 <= v < len(SPECIAL[kind])
     if kind == "arr_typename":
-        return 0 <= v < len(TYPENAMES) ** 2
+        return 0 <= v < len(SPECIAL["typename"]) ** 2
     return cand.value_ok(d, kind, v)
 
 
@@ -67,8 +67,8 @@ def vof(d, kind, v):
     if kind in SPECIAL:
         return pick(SPECIAL[kind], v)
     if kind == "arr_typename":
-        n = len(TYPENAMES)
-        return [pick(TYPENAMES, v // n), pick(TYPENAMES, v % n)]
+        n = len(SPECIAL["typename"])
+        return [pick(SPECIAL["typename"], v // n), pick(SPECIAL["typename"], v % n)]
     return cand.value_of(d, kind, v)
 
 
@@ -128,7 +128,12 @@ EPS_CORE = ["is_valid", "iter_errors", "validate"]
 EPS_ALL = EPS_CORE + ["module", "is_valid+fc", "module+fc"]
 
 
-def single(d, k, kind, position="root", eps="core", exclude=()):
+TYPENAMES_SMALL = ["integer", "string", "any", "foo"]
+
+
+def single(d, k, kind, position="root", eps="core", exclude=(), small_cat=False):
+    cand.SMALL[0] = small_cat
+    SPECIAL["typename"] = TYPENAMES_SMALL if small_cat else TYPENAMES
     place = cand.POSITIONS[position]
     ep_list = EPS_CORE if eps == "core" else EPS_ALL
 
@@ -174,7 +179,10 @@ PAIRS = [
 ]
 
 
-def pairf(d, k1, kind1, k2, kind2):
+def pairf(d, k1, kind1, k2, kind2, small_cat=False):
+    cand.SMALL[0] = small_cat
+    SPECIAL["typename"] = TYPENAMES_SMALL if small_cat else TYPENAMES
+
     def pre(v1, v2, x):
         if not (small(v1, 2, 2, 2) and small(v2, 2, 2, 2) and vok(d, kind1, v1) and vok(d, kind2, v2)):
             return False
@@ -212,7 +220,9 @@ def conditions(tier, seed, active):
 
     def c(cid, factory, params, timeout=900):
         if factory == "single":
-            params = dict(params, exclude=list(active))
+            params = dict(params, exclude=list(active), small_cat=quick)
+        if factory == "pairf":
+            params = dict(params, small_cat=quick)
         out.append(dict(id=cid, module=__name__, factory=factory, params=params, timeout=timeout, tags=[], witness=[],
                         allow_vacuous=True))       # a value kind the metaschema never accepts leaves nothing to run (C11 decides acceptance)
 
@@ -224,10 +234,10 @@ def conditions(tier, seed, active):
                             timeout=1800, tags=[], witness=[]))
         for k in cand.keywords(d):
             for kind in kinds_for(d, k):
-                if quick and rng.random() < 0.5:
+                if quick and rng.random() < 0.6:
                     continue
                 c("kw/%s/%s/d%d" % (k, kind, d), "single", dict(d=d, k=k, kind=kind))
-                if not quick or rng.random() < 0.08:
+                if not quick or rng.random() < 0.03:
                     c("kw-all-entry-points/%s/%s/d%d" % (k, kind, d), "single", dict(d=d, k=k, kind=kind, eps="all"), timeout=1800)
             if not quick:
                 for pos in ("in_properties", "in_items_tuple", "in_not_or_extends"):
@@ -242,6 +252,8 @@ def conditions(tier, seed, active):
                     if d != 3 and "typename" in (a, b) or d != 3 and "arr_typename" in (a, b):
                         continue
                     if d == 3 and k1 == "type" and a in ("str", "arr_str"):
+                        continue
+                    if quick and rng.random() < 0.65:
                         continue
                     c("pair/%s:%s+%s:%s/d%d" % (k1, a, k2, b, d), "pairf", dict(d=d, k1=k1, kind1=a, k2=k2, kind2=b), timeout=1800)
     return out
